@@ -744,7 +744,7 @@ theorem count_tie_map_cand' (w : List Cand) (T : List Cand) : (w.map Slot.cand).
   cases hc
 
 /-- individually elected candidates `w` followed by a selection among other candidates -/
-theorem SelShape.prepend {cands cands' : List Cand} {m : Nat} {B : List Slot} {w : List Cand}
+theorem SelShape.prependCands {cands cands' : List Cand} {m : Nat} {B : List Slot} {w : List Cand}
     (hB : SelShape cands' m B) (hsub : ∀ c ∈ cands', c ∈ cands) (hw : ∀ c ∈ w, c ∈ cands) (hnd : w.Nodup)
     (hdisj : ∀ c ∈ cands', c ∉ w) : SelShape cands (w.length + m) (w.map Slot.cand ++ B) := by
   have htie : ∀ T, Slot.tie T ∈ w.map Slot.cand ++ B → Slot.tie T ∈ B := by
@@ -893,7 +893,7 @@ theorem tiebreakDefault_shape : ∀ (fuel : Nat) (scores : ScoreTable) (n : Nat)
                 omega) (by rw [hkeys]; exact hnd.filter _)
               rw [hkeys] at hshape
               rw [htake]
-              have := SelShape.prepend (cands := (p0 :: ps).map (·.1)) (w := wc) hshape
+              have := SelShape.prependCands (cands := (p0 :: ps).map (·.1)) (w := wc) hshape
                 (fun c hc => (List.mem_filter.mp hc).1)
                 (fun c hc => hbest.cand_ok c (hwc_mem c hc)) hwc_nd
                 (fun c hc hcw => by
@@ -999,7 +999,7 @@ theorem mj_shape (tb : TieBreaking) (cfg : Cfg) (votes : SProfile) (n : Nat) (h1
             rw [List.length_take, horder.length, List.length_map] at this
             rw [List.length_map]
             omega
-          have := SelShape.prepend (cands := scoreCands votes) (w := (aboveSorted agg τ).map (·.1)) hb
+          have := SelShape.prependCands (cands := scoreCands votes) (w := (aboveSorted agg τ).map (·.1)) hb
             (fun c hc => by rw [← htk]; exact hTsub c (mem_sortDedup.mp hc))
             (fun c hc => by
               obtain ⟨p, hp, rfl⟩ := List.mem_map.mp hc
@@ -1937,7 +1937,7 @@ theorem star_shape (ac : Nat) (af : Rat) (haf : 0 ≤ af) (cfg : Cfg) (votes : S
       subst h
       have hn : n = members.length := by omega
       rw [hn, List.take_length]
-      have := SelShape.prepend (cands := scoreCands votes) (cands' := []) (m := 0) (B := []) (w := members)
+      have := SelShape.prependCands (cands := scoreCands votes) (cands' := []) (m := 0) (B := []) (w := members)
         ⟨rfl, by simp, by simp, by simp [electedOf], by simp, by simp⟩ (by simp) hmsub hmnd (by simp)
       simpa using this
     · rename_i hgt
@@ -2538,7 +2538,7 @@ theorem allocated_shape_partial (quota : Rat → Nat → Rat) (votes : SProfile)
       have hcsnd : cs.Nodup := by
         rw [h1] at hnd
         exact List.Nodup.of_map _ hnd
-      have := SelShape.prepend (cands := scoreCands votes) (w := cs) (selShape_nil []) (by simp) h2 hcsnd (by simp)
+      have := SelShape.prependCands (cands := scoreCands votes) (w := cs) (selShape_nil []) (by simp) h2 hcsnd (by simp)
       rw [List.append_nil, Nat.add_zero, h3, hl] at this
       exact this
     · obtain ⟨cs, h1, h2, h3⟩ := elected_cands el hc
@@ -2563,7 +2563,7 @@ theorem allocated_shape_partial (quota : Rat → Nat → Rat) (votes : SProfile)
         rfl
       rw [hslots]
       refine ⟨cs.length + 1, by omega, ?_, ?_⟩
-      · exact SelShape.prepend (cands := scoreCands votes) (w := cs) hB (fun c hc' => (hT c hc').1) h2 hcsnd
+      · exact SelShape.prependCands (cands := scoreCands votes) (w := cs) hB (fun c hc' => (hT c hc').1) h2 hcsnd
           (fun c hc' hcw => (hT c hc').2 (by rw [h1]; exact List.mem_map.mpr ⟨c, hcw, rfl⟩))
       · by_cases hr : rem = 1
         · left; omega
